@@ -6,7 +6,7 @@ Targets (back end A, the real bodies extracted by clang on every run; prelude sp
                        the WHOLE record (name, active alternative, every member of it) is determined by the stream -- whatever the
                        destination held before; unknown tag / short / failed stream => exception
   parameter_write      per active alternative: tag = index - 1, name, then the members in wire order; failure => exception
-  parameter_roundtrip  write(p) into a stream, read it back into an ARBITRARY used object q: q == p, field by field, and the reader
+  parameter_roundtrip_alt<k> (k = 0..6, the alternative written)  write(p) into a stream, read it back into an ARBITRARY used object q: q == p, field by field, and the reader
                        consumed exactly what the writer produced (the property statement itself; both real bodies inlined down
                        to istream::read / ostream::write)
 """
@@ -161,6 +161,7 @@ int main(void)
   struct nv_parameter p, q;          /* p: ANY well-formed parameter; q: ANY object (used before, any alternative active) */
   struct nv_ostream os; struct nv_istream is;
   __CPROVER_assume(NV_PAR_WF(&p));
+  __CPROVER_assume(p.m_storage.index == NV_ALT);      /* one target per alternative (7 targets cover index 0..6 = NV_PAR_WF) */
   __CPROVER_assume(0 <= os.pos && os.pos <= NV_MAXLEN && !os.fail);
   int64_t begin = os.pos;
   nv_thrown = 0; nv_nfields = 0; nv_alloc_failed = 0;
@@ -242,5 +243,4 @@ def targets():
         Target('param_write_fprange', [range_helper('p', 'write', 'double')] + sc('write'), H),
         Target('parameter_read', rd, H, enforce_none=True, harness=READ_HARNESS, loops=0),
         Target('parameter_write', wr, H, enforce='parameter_write'),
-        Target('parameter_roundtrip', both, H, enforce_none=True, harness=ROUNDTRIP, defines=['NV_ROUNDTRIP'], loops=0),
-    ]
+    ] + [Target(f'parameter_roundtrip_alt{k}', both, H, enforce_none=True, harness=ROUNDTRIP, defines=['NV_ROUNDTRIP', f'NV_ALT={k}'], loops=0) for k in range(7)]
